@@ -443,6 +443,11 @@ def gen_int(rng, ty):
     r = rng.random()
     if r < 0.15:
         return 0
+    if r < 0.3:
+        # varint length boundaries, also of the zig-zag image: +-2^(7k-1), 2^(7k), each +-1
+        k = rng.randint(1, 9)
+        c = rng.choice([1 << (7 * k - 1), -(1 << (7 * k - 1)), 1 << (7 * k), -(1 << (7 * k))]) + rng.choice([-1, 0, 0, 1])
+        return min(max(c, lo), hi)
     if r < 0.45:
         cands = [lo, hi, lo + 1, hi - 1, 1, -1 if lo < 0 else 1, 127, 128, 255, 256, 16383, 16384, 2**31 - 1, 2**31, 2**32 - 1, 2**32, 2**63 - 1]
         if ty == "enum":
@@ -548,17 +553,20 @@ def gen_field(rng, schema, f, depth):
     return one()
 
 
-def gen_msg(rng, schema, ci, depth=3):
+def gen_msg(rng, schema, ci, depth=3, multi=0.0):
+    """`multi`: probability that a constructor call names SEVERAL members of one oneof group"""
     md = schema[ci]
     kw = {}
     chosen = {}
     for g in range(md.ngroups):
         members = [i for i, f in enumerate(md.fields) if f.group == g]
         if members and rng.random() < 0.8:
-            chosen[g] = rng.choice(members)
+            chosen[g] = {rng.choice(members)}
+            if len(members) > 1 and rng.random() < multi:
+                chosen[g] = set(rng.sample(members, rng.randint(2, len(members))))
     for i, f in enumerate(md.fields):
         if f.group is not None:
-            if chosen.get(f.group) != i:
+            if i not in chosen.get(f.group, ()):
                 continue
         elif rng.random() < 0.3:
             continue
